@@ -611,6 +611,334 @@ theorem aea_bound_numeric (e phi : ℝ) (he0 : 0 < e) (he2 : e * e ≤ 0.007) (h
     _ ≤ (1e-7 / 0.0174) ^ 2 / (0.993 * 0.03455) := div_le_div_of_nonneg_left (by positivity) (by norm_num) hden
     _ ≤ 1.2e-9 := by norm_num
 
+/-! ## all the way to 89°: a linear phase against `q'(φ₀)`, then the quadratic phase -/
+
+/-- `2u ≤ log(1+u) − log(1−u)` (`atanh u ≥ u`) for `0 ≤ u < 1` -/
+theorem two_mul_le_log_ratio (u : ℝ) (hu0 : 0 ≤ u) (hu1 : u < 1) : 2 * u ≤ log (1 + u) - log (1 - u) := by
+  have hd : ∀ y : ℝ, -1 < y → y < 1 →
+      HasDerivAt (fun y => log (1 + y) - log (1 - y) - 2 * y) (1 / (1 + y) - (-1) / (1 - y) - 2 * 1) y := by
+    intro y h1 h2
+    have a1 : HasDerivAt (fun y : ℝ => log (1 + y)) (1 / (1 + y)) y :=
+      ((hasDerivAt_id y).const_add 1).log (by simp; linarith)
+    have a2 : HasDerivAt (fun y : ℝ => log (1 - y)) ((-1) / (1 - y)) y :=
+      ((hasDerivAt_id y).const_sub 1).log (by simp; linarith)
+    exact (a1.sub a2).sub ((hasDerivAt_id y).const_mul 2)
+  have hmono : MonotoneOn (fun y => log (1 + y) - log (1 - y) - 2 * y) (Ico (0 : ℝ) 1) := by
+    apply monotoneOn_of_deriv_nonneg (convex_Ico 0 1)
+    · intro y hy
+      exact (hd y (by linarith [hy.1]) hy.2).continuousAt.continuousWithinAt
+    · intro y hy
+      rw [interior_Ico] at hy
+      exact (hd y (by linarith [hy.1]) hy.2).differentiableAt.differentiableWithinAt
+    · intro y hy
+      rw [interior_Ico] at hy
+      rw [(hd y (by linarith [hy.1]) hy.2).deriv]
+      have h1 : 0 < 1 + y := by linarith [hy.1]
+      have h2 : 0 < 1 - y := by linarith [hy.2]
+      have : 1 / (1 + y) - (-1) / (1 - y) - 2 * 1 = 2 * y ^ 2 / ((1 + y) * (1 - y)) := by
+        field_simp; ring
+      rw [this]; positivity
+  have h := hmono (⟨le_rfl, one_pos⟩ : (0 : ℝ) ∈ Ico (0 : ℝ) 1) ⟨hu0, hu1⟩ hu0
+  simp at h
+  linarith
+
+/-- `q(s) ≥ 2(1−e²)s` on `[0, 1]` -/
+theorem qOf_ge (e s : ℝ) (he0 : 0 < e) (he1 : e < 1) (hs0 : 0 ≤ s) (hs1 : s ≤ 1) : 2 * (1 - e * e) * s ≤ qOf e s := by
+  have hu0 : 0 ≤ e * s := mul_nonneg he0.le hs0
+  have hu1 : e * s < 1 := by nlinarith
+  have hlog := two_mul_le_log_ratio (e * s) hu0 hu1
+  have ha : 0 < 1 - e * e := by nlinarith
+  have hden : 0 < 1 - e * s * (e * s) := by nlinarith
+  have hden1 : 1 - e * s * (e * s) ≤ 1 := by nlinarith [mul_nonneg hu0 hu0]
+  unfold qOf
+  have h1 : s ≤ s / (1 - e * s * (e * s)) := by
+    rw [le_div_iff₀ hden]; nlinarith
+  have h2 : s ≤ -(0.5 / e * (log (1 - e * s) - log (1 + e * s))) := by
+    have : 0 ≤ 0.5 / e := by positivity
+    have h3 := mul_le_mul_of_nonneg_left hlog this
+    have h4 : 0.5 / e * (2 * (e * s)) = s := by field_simp; ring
+    linarith
+  nlinarith
+
+/-- the quadratic phase: from `p − φ ≤ t·K`, `K = (1−e²) q'(p)`, the error squares (`t ↦ t²`) on every pass -/
+theorem aeaLoop_quad (e p : ℝ) (he : 1.0e-7 < e) (he2 : e * e ≤ 1 / 4) (hp : p < π / 2) :
+    ∀ (j : ℕ) (phi t : ℝ), 0 ≤ phi → phi ≤ p → 0 ≤ t → p - phi ≤ t * ((1 - e * e) * qD e p) →
+      t ^ (2 ^ j) * ((1 - e * e) * qD e p) ≤ 1e-7 → ∃ r, aeaPhi1zLoop e (qsfnz e (sin p)) (j + 1) phi = .ok r := by
+  have he0 : (0 : ℝ) < e := lt_trans (by norm_num) he
+  have he1 : e < 1 := by nlinarith
+  have ha : 0 < 1 - e * e := by linarith
+  intro j
+  induction j with
+  | zero =>
+    intro phi t h0 hpp ht hE hfin
+    obtain ⟨m1, m2, _⟩ := C08_aea_newton_monotone e p phi he he2 h0 hpp hp
+    have hs : |aeaPhi1zStep e (qsfnz e (sin p)) phi| ≤ 1e-7 := by
+      rw [abs_of_nonneg m1]; simp at hfin; linarith
+    exact ⟨phi + aeaPhi1zStep e (qsfnz e (sin p)) phi, by simp [aeaPhi1zLoop, hs]⟩
+  | succ j ih =>
+    intro phi t h0 hpp ht hE hfin
+    obtain ⟨m1, m2, _⟩ := C08_aea_newton_monotone e p phi he he2 h0 hpp hp
+    have hq := C08_aea_newton_quadratic e p phi he he2 h0 hpp hp
+    by_cases hs : |aeaPhi1zStep e (qsfnz e (sin p)) phi| ≤ 1e-7
+    · exact ⟨phi + aeaPhi1zStep e (qsfnz e (sin p)) phi, by simp [aeaPhi1zLoop, hs]⟩
+    · have hDp := qD_pos e p he0 he1 (by linarith [pi_pos]) hp
+      have hK : 0 < (1 - e * e) * qD e p := mul_pos ha hDp
+      have hE0 : 0 ≤ p - phi := by linarith
+      have hnext : p - (phi + aeaPhi1zStep e (qsfnz e (sin p)) phi) ≤ t ^ 2 * ((1 - e * e) * qD e p) := by
+        have h1 : (p - phi) ^ 2 ≤ (t * ((1 - e * e) * qD e p)) ^ 2 := pow_le_pow_left₀ hE0 hE 2
+        calc p - (phi + aeaPhi1zStep e (qsfnz e (sin p)) phi)
+            ≤ (p - phi) ^ 2 / ((1 - e * e) * qD e p) := hq
+          _ ≤ (t * ((1 - e * e) * qD e p)) ^ 2 / ((1 - e * e) * qD e p) := div_le_div_of_nonneg_right h1 hK.le
+          _ = t ^ 2 * ((1 - e * e) * qD e p) := by field_simp
+      have hfin' : (t ^ 2) ^ (2 ^ j) * ((1 - e * e) * qD e p) ≤ 1e-7 := by
+        rw [← pow_mul, show 2 * 2 ^ j = 2 ^ (j + 1) by ring]; exact hfin
+      obtain ⟨r, hr⟩ := ih (phi + aeaPhi1zStep e (qsfnz e (sin p)) phi) (t ^ 2) (by linarith) m2 (by positivity) hnext hfin'
+      refine ⟨r, ?_⟩
+      rw [aeaPhi1zLoop]
+      simp only [le_real, abs_real, hs, decide_false, Bool.false_eq_true, if_false]
+      exact hr
+
+/-- `n` linear passes at rate `1 − q'(p)/q'(φs)` (all iterates stay above `φs`), then `j + 1` quadratic ones -/
+theorem aeaLoop_lin_quad (e p phis : ℝ) (he : 1.0e-7 < e) (he2 : e * e ≤ 1 / 4) (hp : p < π / 2) (hs0 : 0 ≤ phis) :
+    ∀ (n j : ℕ) (phi t : ℝ), phis ≤ phi → phi ≤ p → 0 ≤ t →
+      (1 - qD e p / qD e phis) ^ n * (p - phi) ≤ t * ((1 - e * e) * qD e p) →
+      t ^ (2 ^ j) * ((1 - e * e) * qD e p) ≤ 1e-7 →
+      ∃ r, aeaPhi1zLoop e (qsfnz e (sin p)) (n + j + 1) phi = .ok r := by
+  have he0 : (0 : ℝ) < e := lt_trans (by norm_num) he
+  have he1 : e < 1 := by nlinarith
+  intro n
+  induction n with
+  | zero =>
+    intro j phi t h1 hpp ht hE hfin
+    simp only [pow_zero, one_mul] at hE
+    rw [Nat.zero_add]
+    exact aeaLoop_quad e p he he2 hp j phi t (le_trans hs0 h1) hpp ht hE hfin
+  | succ n ih =>
+    intro j phi t h1 hpp ht hE hfin
+    have h0 : 0 ≤ phi := le_trans hs0 h1
+    obtain ⟨m1, m2, m3⟩ := C08_aea_newton_monotone e p phi he he2 h0 hpp hp
+    have hidx : n + 1 + j + 1 = (n + j + 1) + 1 := by omega
+    rw [hidx]
+    by_cases hs : |aeaPhi1zStep e (qsfnz e (sin p)) phi| ≤ 1e-7
+    · exact ⟨phi + aeaPhi1zStep e (qsfnz e (sin p)) phi, by simp [aeaPhi1zLoop, hs]⟩
+    · have hp0 : 0 ≤ p := le_trans h0 hpp
+      have hDp := qD_pos e p he0 he1 (by linarith [pi_pos]) hp
+      have hDphi := qD_pos e phi he0 he1 (by linarith [pi_pos]) (lt_of_le_of_lt hpp hp)
+      have hDs := qD_pos e phis he0 he1 (by linarith [pi_pos]) (lt_of_le_of_lt (le_trans h1 hpp) hp)
+      have hanti := (qD_antitone e phis phi he0 he2 hs0 h1 (by linarith)).1
+      have hρ : qD e p / qD e phis ≤ qD e p / qD e phi := div_le_div_of_nonneg_left hDp.le hDphi hanti
+      have hanti2 := (qD_antitone e phis p he0 he2 hs0 (le_trans h1 hpp) hp.le).1
+      have hk0 : 0 ≤ 1 - qD e p / qD e phis := by
+        have : qD e p / qD e phis ≤ 1 := by rw [div_le_one hDs]; exact hanti2
+        linarith
+      have hE0 : 0 ≤ p - phi := by linarith
+      have hnext : (1 - qD e p / qD e phis) ^ n * (p - (phi + aeaPhi1zStep e (qsfnz e (sin p)) phi))
+          ≤ t * ((1 - e * e) * qD e p) := by
+        have h2 : p - (phi + aeaPhi1zStep e (qsfnz e (sin p)) phi) ≤ (1 - qD e p / qD e phis) * (p - phi) := by
+          nlinarith [mul_le_mul_of_nonneg_right hρ hE0]
+        calc (1 - qD e p / qD e phis) ^ n * (p - (phi + aeaPhi1zStep e (qsfnz e (sin p)) phi))
+            ≤ (1 - qD e p / qD e phis) ^ n * ((1 - qD e p / qD e phis) * (p - phi)) :=
+              mul_le_mul_of_nonneg_left h2 (pow_nonneg hk0 n)
+          _ = (1 - qD e p / qD e phis) ^ (n + 1) * (p - phi) := by ring
+          _ ≤ t * ((1 - e * e) * qD e p) := hE
+      obtain ⟨r, hr⟩ := ih j (phi + aeaPhi1zStep e (qsfnz e (sin p)) phi) t (by linarith) m2 ht hnext hfin
+      refine ⟨r, ?_⟩
+      rw [aeaPhi1zLoop]
+      simp only [le_real, abs_real, hs, decide_false, Bool.false_eq_true, if_false]
+      exact hr
+
+/-- `q'(φ) ≤ 2 cos φ/(1−e²)` -/
+theorem qD_le_cos (e phi : ℝ) (he0 : 0 < e) (he1 : e < 1) (hc : 0 ≤ cos phi) : qD e phi ≤ 2 * cos phi / (1 - e * e) := by
+  obtain ⟨a, b⟩ := esin_pos e phi he0 he1
+  have hapos : 0 < 1 - e * e := by nlinarith
+  have hss : sin phi * sin phi ≤ 1 := by
+    have := Real.sin_sq_le_one phi
+    rw [pow_two] at this; exact this
+  have hden : 1 - e * e ≤ (1 - e * sin phi) * (1 + e * sin phi) := by
+    have h1 : (1 - e * sin phi) * (1 + e * sin phi) = 1 - e * e * (sin phi * sin phi) := by ring
+    rw [h1]
+    have h2 : e * e * (sin phi * sin phi) ≤ e * e * 1 := mul_le_mul_of_nonneg_left hss (mul_nonneg he0.le he0.le)
+    linarith
+  have hden2 : (1 - e * e) ^ 2 ≤ ((1 - e * sin phi) * (1 + e * sin phi)) ^ 2 :=
+    pow_le_pow_left₀ hapos.le hden 2
+  have hstep1 : qD e phi ≤ (1 - e * e) * 2 / (1 - e * e) ^ 2 * cos phi := by
+    unfold qD
+    apply mul_le_mul_of_nonneg_right _ hc
+    exact div_le_div_of_nonneg_left (by positivity) (by positivity) hden2
+  have hstep2 : (1 - e * e) * 2 / (1 - e * e) ^ 2 * cos phi = 2 * cos phi / (1 - e * e) := by
+    field_simp
+  rw [hstep2] at hstep1
+  exact hstep1
+
+
+/-- one latitude band `clo ≤ cos p ≤ chi` on an Earth-like ellipsoid (`e² ≤ 0.007`): the start satisfies
+`cos φ₀ ≤ Chi` (`Chi² ≥ chi² + 2e²`), hence the linear rate is at most `kb ≥ 1 − 0.986·clo/Chi`, the first error at most
+`1.5708·Chi`, and 19 linear + 6 quadratic passes are enough when `kb^19·1.5708·Chi ≤ ½·1.972·clo`. -/
+theorem aea_band (e p : ℝ) (he : 1.0e-7 < e) (he2 : e * e ≤ 0.007) (hp0 : 0 ≤ p) (hp : p < π / 2)
+    (clo chi Chi kb : ℝ) (hclo : 0 < clo) (h1 : clo ≤ cos p) (h2 : cos p ≤ chi) (hChi : 0 < Chi)
+    (hC : chi ^ 2 + 0.014 ≤ Chi ^ 2) (hkb : 1 - 0.986 * clo / Chi ≤ kb)
+    (hnum : kb ^ 19 * (1.5708 * Chi) ≤ 1 / 2 * (1.972 * clo)) :
+    ∃ r, aeaPhi1z e (qsfnz e (sin p)) = .ok r := by
+  have he0 : (0 : ℝ) < e := lt_trans (by norm_num) he
+  have he1 : e < 1 := by nlinarith
+  have he2' : e * e ≤ 1 / 4 := by linarith
+  have ha : 0.993 ≤ 1 - e * e := by linarith
+  obtain ⟨s1, s2, s3⟩ := aea_start_mem e p he he1 hp0 hp.le
+  set phi0 := arcsin (0.5 * qsfnz e (sin p)) with hphi0
+  have hsp0 : 0 ≤ sin p := sin_nonneg_of_nonneg_of_le_pi hp0 (by linarith [pi_pos])
+  have hsp1 : sin p ≤ 1 := sin_le_one p
+  have hcp0 : 0 < cos p := lt_of_lt_of_le hclo h1
+  have hQ : qsfnz e (sin p) = qOf e (sin p) := qsfnz_eq_qOf e _ he (esin_pos e p he0 he1).1 (esin_pos e p he0 he1).2
+  -- cos φ₀ ≤ Chi
+  have hx_lo : (1 - e * e) * sin p ≤ 0.5 * qsfnz e (sin p) := by
+    rw [hQ]; linarith [qOf_ge e (sin p) he0 he1 hsp0 hsp1]
+  have hx_hi : 0.5 * qsfnz e (sin p) ≤ 1 := by
+    rw [hQ]; linarith [qOf_le_two_mul e (sin p) he0 he1 hsp0 hsp1]
+  have hcos0 : cos phi0 ≤ Chi := by
+    rw [hphi0, Real.cos_arcsin]
+    have hy0 : 0 ≤ (1 - e * e) * sin p := mul_nonneg (by linarith) hsp0
+    have hsq : ((1 - e * e) * sin p) ^ 2 ≤ (0.5 * qsfnz e (sin p)) ^ 2 := pow_le_pow_left₀ hy0 hx_lo 2
+    have hsc := sin_sq_add_cos_sq p
+    have hc2 : cos p ^ 2 ≤ chi ^ 2 := pow_le_pow_left₀ hcp0.le h2 2
+    have hle : 1 - (0.5 * qsfnz e (sin p)) ^ 2 ≤ Chi ^ 2 := by
+      have ha0 : 0 ≤ e * e := mul_nonneg he0.le he0.le
+      have hS0 : 0 ≤ sin p ^ 2 := sq_nonneg _
+      have hS1 : sin p ^ 2 ≤ 1 := by nlinarith [sq_nonneg (cos p)]
+      have hexp : 1 - ((1 - e * e) * sin p) ^ 2 = cos p ^ 2 + (2 * (e * e) - (e * e) ^ 2) * sin p ^ 2 := by
+        have : cos p ^ 2 = 1 - sin p ^ 2 := by linarith
+        rw [this]; ring
+      have hb : (2 * (e * e) - (e * e) ^ 2) * sin p ^ 2 ≤ 2 * (e * e) := by
+        have g1 : (2 * (e * e) - (e * e) ^ 2) * sin p ^ 2 ≤ (2 * (e * e)) * sin p ^ 2 := by
+          apply mul_le_mul_of_nonneg_right _ hS0
+          nlinarith [sq_nonneg (e * e)]
+        have g2 : (2 * (e * e)) * sin p ^ 2 ≤ 2 * (e * e) * 1 := mul_le_mul_of_nonneg_left hS1 (by positivity)
+        linarith
+      have h3 : 1 - ((1 - e * e) * sin p) ^ 2 ≤ cos p ^ 2 + 2 * (e * e) := by rw [hexp]; linarith
+      linarith
+    calc sqrt (1 - (0.5 * qsfnz e (sin p)) ^ 2) ≤ sqrt (Chi ^ 2) := Real.sqrt_le_sqrt hle
+      _ = Chi := Real.sqrt_sq hChi.le
+  have hphi0_2 : phi0 < π / 2 := lt_of_le_of_lt s3 hp
+  have hcos0pos : 0 < cos phi0 := cos_pos_of_mem_Ioo ⟨by linarith [pi_pos], hphi0_2⟩
+  -- q'(φ₀) ≤ 2 cos φ₀/(1−e²), q'(p) ≥ 2(1−e²) cos p
+  have hD0 : 0 < qD e 0 := qD_pos e 0 he0 he1 (by linarith [pi_pos]) (by linarith [pi_pos])
+  have hDp := qD_pos e p he0 he1 (by linarith [pi_pos]) hp
+  have hDphi0 := qD_pos e phi0 he0 he1 (by linarith [pi_pos]) hphi0_2
+  have hDp_lo : 1.986 * clo ≤ qD e p := by
+    have hρ := qD_ratio_ge_cos e p he0 he1 hp0 hp.le
+    rw [le_div_iff₀ hD0, qD_zero] at hρ
+    have g : clo * 0.993 ≤ cos p * (1 - e * e) := mul_le_mul h1 ha (by norm_num) hcp0.le
+    linarith
+  have hDp_hi : qD e p ≤ 2 := by
+    have := (qD_antitone e 0 p he0 he2' le_rfl hp0 hp.le).1
+    rw [qD_zero] at this; linarith [mul_nonneg he0.le he0.le]
+  have hDphi0_hi : qD e phi0 ≤ 2 * Chi / 0.993 := by
+    have hq := qD_le_cos e phi0 he0 he1 hcos0pos.le
+    have hapos : 0 < 1 - e * e := by linarith
+    have hstep3 : 2 * cos phi0 / (1 - e * e) ≤ 2 * Chi / 0.993 := by
+      rw [div_le_div_iff₀ hapos (by norm_num)]
+      have g : cos phi0 * 0.993 ≤ Chi * (1 - e * e) := mul_le_mul hcos0 ha (by norm_num) hChi.le
+      linarith
+    linarith
+  -- the linear rate
+  have hρ : 0.986 * clo / Chi ≤ qD e p / qD e phi0 := by
+    rw [div_le_div_iff₀ hChi hDphi0]
+    have h3 : qD e phi0 * 0.993 ≤ 2 * Chi := by
+      rw [le_div_iff₀ (by norm_num)] at hDphi0_hi; exact hDphi0_hi
+    have a1 := mul_le_mul_of_nonneg_left h3 (by positivity : (0 : ℝ) ≤ 0.986 * clo)
+    have a2 : 1.986 * clo * Chi ≤ qD e p * Chi := mul_le_mul_of_nonneg_right hDp_lo hChi.le
+    have a3 : 0 ≤ clo * Chi := mul_nonneg hclo.le hChi.le
+    linarith
+  have hanti2 := (qD_antitone e phi0 p he0 he2' s2 s3 hp.le).1
+  have hk0 : 0 ≤ 1 - qD e p / qD e phi0 := by
+    have : qD e p / qD e phi0 ≤ 1 := by rw [div_le_one hDphi0]; exact hanti2
+    linarith
+  have hk : 1 - qD e p / qD e phi0 ≤ kb := by linarith
+  -- the first error
+  have hE0 : 0 ≤ p - phi0 := by linarith
+  have hE : p - phi0 ≤ 1.5708 * Chi := by
+    have hj := Real.mul_le_sin hE0 (by linarith)
+    have hsin : sin (p - phi0) ≤ cos phi0 := by
+      rw [Real.sin_sub]
+      have hs0 : 0 ≤ sin phi0 := sin_nonneg_of_nonneg_of_le_pi s2 (by linarith [pi_pos])
+      have t1 : sin p * cos phi0 ≤ 1 * cos phi0 := mul_le_mul_of_nonneg_right hsp1 hcos0pos.le
+      have t2 : 0 ≤ cos p * sin phi0 := mul_nonneg hcp0.le hs0
+      linarith
+    have hpi : π < 3.1416 := Real.pi_lt_d4
+    have h4 : p - phi0 ≤ π / 2 * sin (p - phi0) := by
+      have : 2 / π * (p - phi0) ≤ sin (p - phi0) := hj
+      rw [div_mul_eq_mul_div, div_le_iff₀ pi_pos] at this
+      linarith
+    have h5 : 0 ≤ sin (p - phi0) := sin_nonneg_of_nonneg_of_le_pi hE0 (by linarith [pi_pos])
+    have h8 : π / 2 * sin (p - phi0) ≤ 1.5708 * sin (p - phi0) := mul_le_mul_of_nonneg_right (by linarith) h5
+    linarith
+  -- K = (1−e²) q'(p)
+  have hK_lo : 1.972 * clo ≤ (1 - e * e) * qD e p := by
+    have g : 0.993 * (1.986 * clo) ≤ (1 - e * e) * qD e p := mul_le_mul ha hDp_lo (by positivity) (by linarith)
+    linarith
+  have hK_hi : (1 - e * e) * qD e p ≤ 2 := by
+    have g : (1 - e * e) * qD e p ≤ 1 * 2 :=
+      mul_le_mul (by linarith [mul_nonneg he0.le he0.le]) hDp_hi hDp.le (by norm_num)
+    linarith
+  have hcount : (1 - qD e p / qD e phi0) ^ 19 * (p - phi0) ≤ 1 / 2 * ((1 - e * e) * qD e p) := by
+    have hkb0 : 0 ≤ kb := le_trans hk0 hk
+    have h6 : (1 - qD e p / qD e phi0) ^ 19 ≤ kb ^ 19 := pow_le_pow_left₀ hk0 hk 19
+    calc (1 - qD e p / qD e phi0) ^ 19 * (p - phi0) ≤ kb ^ 19 * (1.5708 * Chi) :=
+          mul_le_mul h6 hE hE0 (pow_nonneg hkb0 19)
+      _ ≤ 1 / 2 * (1.972 * clo) := hnum
+      _ ≤ 1 / 2 * ((1 - e * e) * qD e p) := by linarith
+  have hfin : ((1 : ℝ) / 2) ^ (2 ^ 5) * ((1 - e * e) * qD e p) ≤ 1e-7 := by
+    have : ((1 : ℝ) / 2) ^ (2 ^ 5) * ((1 - e * e) * qD e p) ≤ ((1 : ℝ) / 2) ^ (2 ^ 5) * 2 :=
+      mul_le_mul_of_nonneg_left hK_hi (by positivity)
+    have h7 : ((1 : ℝ) / 2) ^ (2 ^ 5) * 2 ≤ 1e-7 := by norm_num
+    linarith
+  obtain ⟨r, hr⟩ := aeaLoop_lin_quad e p phi0 he he2' hp s2 19 5 phi0 (1 / 2) le_rfl s3 (by norm_num) hcount hfin
+  have hne : ¬ (e < (epsln : ℝ)) := by
+    have : (epsln : ℝ) = 1.0e-10 := rfl
+    rw [this]; intro hc
+    have : (1.0e-10 : ℝ) < 1.0e-7 := by norm_num
+    linarith
+  refine ⟨r, ?_⟩
+  simp only [aeaPhi1z, lt_real, hne, decide_false, Bool.false_eq_true, if_false, s1]
+  exact hr
+
+/-- **`aeaPhi1z` converges within its 25 passes** on every Earth-like ellipsoid (`1e-7 < e`, `e² ≤ 0.007`) for every
+latitude `0 ≤ p` with `cos p ≥ 0.0174` (up to 89.003°, the border of the usable region): it returns `.ok r` (never
+"didn't converge") with `0 ≤ r ≤ p` and `p − r ≤ 1.2e-9` rad (6.9e-8 degrees). -/
+theorem C08_aeaPhi1z_converges (e p : ℝ) (he : 1.0e-7 < e) (he2 : e * e ≤ 0.007) (hp0 : 0 ≤ p) (hp : p < π / 2)
+    (hcos : 0.0174 ≤ cos p) :
+    ∃ r, aeaPhi1z e (qsfnz e (sin p)) = .ok r ∧ 0 ≤ r ∧ r ≤ p ∧ p - r ≤ 1.2e-9 := by
+  have he0 : (0 : ℝ) < e := lt_trans (by norm_num) he
+  have hex : ∃ r, aeaPhi1z e (qsfnz e (sin p)) = .ok r := by
+    have hc1 : cos p ≤ 1 := cos_le_one p
+    by_cases b1 : cos p ≤ 0.03
+    · exact aea_band e p he he2 hp0 hp 0.0174 0.03 0.1221 0.86 (by norm_num) hcos b1 (by norm_num) (by norm_num)
+        (by norm_num) (by norm_num)
+    by_cases b2 : cos p ≤ 0.06
+    · exact aea_band e p he he2 hp0 hp 0.03 0.06 0.1327 0.78 (by norm_num) (by linarith) b2 (by norm_num) (by norm_num)
+        (by norm_num) (by norm_num)
+    by_cases b3 : cos p ≤ 0.15
+    · exact aea_band e p he he2 hp0 hp 0.06 0.15 0.1911 0.70 (by norm_num) (by linarith) b3 (by norm_num) (by norm_num)
+        (by norm_num) (by norm_num)
+    · exact aea_band e p he he2 hp0 hp 0.15 1 1.007 0.86 (by norm_num) (by linarith) hc1 (by norm_num) (by norm_num)
+        (by norm_num) (by norm_num)
+  obtain ⟨r, hr⟩ := hex
+  obtain ⟨c1, c2, c3⟩ := C08_aeaPhi1z_close e p r he (by linarith) hp0 hp hr
+  exact ⟨r, hr, c1, c2, le_trans c3 (aea_bound_numeric e p he0 he2 hp0 hp.le hcos)⟩
+
+/-- **aea_inv_within** (ellipsoidal Albers, both cone signs, Earth-like ellipsoid, `0 ≤ φ`, `cos φ ≥ 0.0174`, NO convergence
+hypothesis): inverse(forward(λ, φ)) reports no error, returns `λ` exactly and a latitude within 1.2e-9 rad below `φ`. -/
+theorem C08_aea_inv_within (k : AeaC ℝ) (hs : k.sr.sphere = false) (ha : 0 < k.sr.a) (hn : k.ns0 ≠ 0)
+    (he : 1.0e-7 < k.e3) (he2 : k.e3 * k.e3 ≤ 0.007)
+    (lon lat : ℝ) (hlat0 : 0 ≤ lat) (hlat : lat < π / 2) (hcos : 0.0174 ≤ cos lat)
+    (hpos : 0 < k.c - k.ns0 * qsfnz k.e3 (sin lat))
+    (hlon : |lon| ≤ sPi) (hdl : |lon - k.sr.long0| ≤ sPi)
+    (h1 : -π < k.ns0 * (lon - k.sr.long0)) (h2 : k.ns0 * (lon - k.sr.long0) ≤ π) :
+    ∃ lat', (fwdAea k lon lat).bind (fun q => invAea k q.1 q.2) = .ok (lon, lat') ∧ |lat' - lat| ≤ 1.2e-9 := by
+  obtain ⟨r, hr, c1, c2, c3⟩ := C08_aeaPhi1z_converges k.e3 lat he he2 hlat0 hlat hcos
+  refine ⟨r, ?_, ?_⟩
+  · rw [aea_chain k hs ha hn lon lat hpos hlon hdl h1 h2, hr]; rfl
+  · rw [abs_le]; constructor <;> linarith
+
 /-- non-vacuity: the hypotheses hold on the Earth ellipsoids (e = 0.0818) at 89° from the traced start -/
 example : (1.0e-7 : ℝ) < 0.0818 ∧ (0.0818 : ℝ) * 0.0818 ≤ 1 / 4 ∧ (0 : ℝ) ≤ 1.5135 ∧ (1.5135 : ℝ) ≤ 1.5533 := by
   norm_num
